@@ -152,12 +152,14 @@ def classify(table, got, exp, es, skip):
     return pre + ":touched_" + table
 
 
-def run_sort(acc, inp, es, ss, ms, case):
+def run_sort(acc, inp, es, ss, ms, case, indexed=False):
     """One execution of the real sort against the model."""
     status, exp = sort_expect(inp, es, ss, ms)
     nontrivial = status == "ok" and any(exp[t] != inp[t] for t in SM.TABLES)
     acc.ev(1, nontrivial)
     tc = SM.to_tables(inp)
+    if indexed:
+        tc.build_index()
     raised = None
     try:
         tc.sort(es, site_start=ss, mutation_start=ms)
@@ -342,6 +344,22 @@ def sortMig_variants(base, bd):
 def sortMig_run(acc, base, bd, var, kind="sortMig"):
     inp = SM.permute(base, "migrations", var["pg"])
     run_sort(acc, inp, 0, 0, 0, {"kind": kind, "base": bd, "var": var})
+    # migrations have no start argument: they must be sorted whatever the other start offsets are,
+    # and whether or not the tables carry an index
+    E, S, M = len(inp["edges"]), len(inp["sites"]), len(inp["mutations"])
+    for es in (0, E):
+        for ss in (0, S):
+            for ms in (0, M):
+                for indexed in (False, True):
+                    if (es, ss, ms, indexed) == (0, 0, 0, False):
+                        continue
+                    use = inp
+                    if indexed:
+                        # an index needs sorted edges: everything but the migrations already in sorted order
+                        use = dict(SM.ref_sort(inp, 0, False))
+                        use["migrations"] = inp["migrations"]
+                    run_sort(acc, use, es, ss, ms, {"kind": kind, "base": bd, "var": var, "starts": [es, ss, ms],
+                                                    "indexed": indexed}, indexed=indexed)
 
 
 # ======================================================================================
